@@ -105,7 +105,7 @@ class Encrypt(Machine):
                 if r < 0.9 or last_enc is None:
                     op = {"kind": "enc", "i": i, "fw": s.choice(fws)[0] if s.chance(0.3) else fws[0][0],
                           "key": keys[0] if s.chance(0.8) else s.choice(keys), "kid": s.choice(KIDS),
-                          "hash": "sha-256", "out": dirs[0], "entry": s.choice(["lib", "lib_reuse", "lib_reuse"]),
+                          "hash": "sha-256", "out": dirs[0], "entry": s.choice(["lib", "lib_reuse", "lib_reuse", "kms"]),
                           "ctx": "path", "stale": False}
                     last_enc = op
                 elif r < 0.94:
@@ -117,12 +117,12 @@ class Encrypt(Machine):
             elif r < 0.55 or last_enc is None:
                 if last_enc is not None and s.chance(0.35):
                     op = dict(last_enc, i=i)  # identical plaintext and key again
-                    op["entry"] = s.choice(["cli", "lib", "lib_reuse"])
+                    op["entry"] = s.choice(["cli", "lib", "lib_reuse", "kms"])
                 else:
                     op = {"kind": "enc", "i": i, "fw": s.choice(fws)[0], "key": s.choice(keys),
                           "kid": s.choice(KIDS) if s.chance(0.7) else s.below(1 << 32),
                           "hash": s.choice(HASHES), "out": s.choice(dirs),
-                          "entry": s.choice(["cli", "cli", "lib", "lib_reuse", "main"]),
+                          "entry": s.choice(["cli", "cli", "lib", "lib_reuse", "main", "kms"]),
                           "ctx": s.choice(["path", "json"]), "stale": s.chance(0.3)}
                 last_enc = op
             elif r < 0.67:
@@ -174,6 +174,7 @@ class Encrypt(Machine):
         model["_abstract"] = None
         if model.get("_gen") != host.generation:
             model["enc_obj"] = None  # objects do not survive a restart
+            model["kms_obj"] = None
             model["_gen"] = host.generation
         if k == "setup":
             host.mkdir("keys")
@@ -234,6 +235,9 @@ class Encrypt(Machine):
                     "--kms-script", world.KMS_SCRIPT, "--encrypt-script", world.ENCRYPT_SCRIPT]
             return host.cli(argv, kind="encrypt", faults=faults, full_main=(entry == "main"))
         plaintext = model["fws"][op["fw"]]
+        if entry == "kms":
+            return host.tool(lambda: self._kms_direct(model, plaintext, op["key"], op["kid"], ctx, op["hash"]),
+                             kind="encrypt_kms_api", faults=faults)
 
         def run():
             from suit_generator.suit_encrypt_script_base import SuitDigestAlgorithms, SuitKWAlgorithms
@@ -250,6 +254,24 @@ class Encrypt(Machine):
                                              SuitKWAlgorithms("direct"), world.KMS_SCRIPT)
 
         return host.tool(run, kind="encrypt_lib", faults=faults)
+
+    @staticmethod
+    def _kms_direct(model, plaintext, key_name, kid, ctx, hash_name):
+        """The documented KMS interface used directly: the KMS module is imported once per interpreter (as a service
+        would), `encrypt` gives nonce, tag and ciphertext, `Encryptor.generate` publishes them."""
+        import importlib
+        from suit_generator.suit_encrypt_script_base import SuitKWAlgorithms
+
+        kms = model.get("kms_obj")
+        if kms is None:
+            kms = importlib.import_module("ncs.basic_kms").suit_kms_factory()
+            kms.init_kms(ctx)
+            model["kms_obj"] = kms
+        aad = cose.enc_structure(PROTECTED)
+        nonce, tag, ciphertext = kms.encrypt(plaintext, key_name, ctx, aad)
+        encr = importlib.import_module("ncs.encrypt_script").suit_encryptor_factory()
+        content, tag2, info = encr.generate(nonce + tag + ciphertext, None, kid, SuitKWAlgorithms("direct"))
+        return content, tag2, info, cose.digest(hash_name, plaintext), len(plaintext)
 
     def _enc(self, host, model, op, faults, prop):
         ex = model["_extra"]
@@ -398,6 +420,10 @@ class Encrypt(Machine):
 
                     o = host.tool(run, kind="encrypt_lib_forked")
                     out.append((o.cls, o.value if o.ok else None))
+                    if model.get("kms_obj") is not None:
+                        o = host.tool(lambda: self._kms_direct(model, plaintext, op["key"], 24, ctx, "sha-256"),
+                                      kind="encrypt_kms_api_forked")
+                        out.append((o.cls, o.value if o.ok else None))
                 with os.fdopen(w, "wb") as fh:
                     fh.write(pickle.dumps(out))
             except BaseException:  # noqa: B036
